@@ -226,8 +226,10 @@ where
         if area.is_zero_sized()
             || area.top_left.x < 0
             || area.top_left.y < 0
-            || area.top_left.x as u32 + area.size.width > self.size.width
-            || area.top_left.y as u32 + area.size.height > self.size.height
+            || u64::from(area.top_left.x as u32) + u64::from(area.size.width)
+                > u64::from(self.size.width)
+            || u64::from(area.top_left.y as u32) + u64::from(area.size.height)
+                > u64::from(self.size.height)
         {
             return Ok(());
         }
